@@ -56,8 +56,11 @@ def shards(tier):
                     continue
                 keep.append(j)
                 continue
-            if fname == "shard_many_calls" and build == "dbg":
-                continue        # 66000-call programs: optimised checked build only in the quick tier
+            if fname == "shard_many_calls":
+                # 66000-call programs: optimised checked build only in the quick tier
+                if build == "relchk":
+                    keep.append(j)
+                continue
             if mn in HEAVY or fname in HEAVY_SHARDS:
                 k = (mn, fname, repr(arg))
                 if k not in n:
